@@ -285,3 +285,345 @@ Proof.
   destruct (HE _ _ _ _ (pratt_roundtrip_bigstep t)) as [_ H].
   rewrite H by lia. reflexivity.
 Qed.
+
+(* ================================================================ 4. the PEG phase on printed tokens *)
+
+Definition is_leaf (t : term) : Prop := match t with TPre _ | TVar _ => True | _ => False end.
+Definition leaf_token (t : term) : token :=
+  match t with TPre p => print_pterm p | TVar x => TkVar x | _ => TkDot end.
+
+Fixpoint flatten_item (i : item) : list token :=
+  match i with
+  | ILeaf t => [leaf_token t]
+  | IParen l =>
+    TkLP :: (fix go (l : list item) : list token :=
+               match l with [] => [] | x :: r => flatten_item x ++ go r end) l ++ [TkRP]
+  | IPre => [TkNeg]
+  | IIn o => [TkBin o]
+  end.
+Fixpoint flatten (l : list item) : list token :=
+  match l with [] => [] | x :: r => flatten_item x ++ flatten r end.
+
+Lemma flatten_paren l : flatten_item (IParen l) = TkLP :: flatten l ++ [TkRP].
+Proof. reflexivity. Qed.
+Lemma flatten_app a b : flatten (a ++ b) = flatten a ++ flatten b.
+Proof. induction a as [|x a IH]; cbn [flatten app]; [reflexivity|]. rewrite IH, app_assoc. reflexivity. Qed.
+Lemma flatten_iparen b l : flatten (iparen b l) = paren b (flatten l).
+Proof. destruct b; cbn [iparen paren flatten]; [|reflexivity]. rewrite flatten_paren, app_nil_r. reflexivity. Qed.
+
+Lemma flatten_print_items t : flatten (print_items t) = print_term t.
+Proof.
+  induction t as [p|x|[] c IH|o l IHl r IHr]; cbn [print_items print_term].
+  - reflexivity.
+  - reflexivity.
+  - destruct (associativity (TUn AUNeg c)).
+    + cbn [flatten flatten_item fmt_operator app]. rewrite flatten_iparen, IH. reflexivity.
+    + rewrite flatten_app, flatten_iparen, IH. reflexivity.
+  - rewrite flatten_app. cbn [flatten flatten_item fmt_operator app].
+    rewrite !flatten_iparen, IHl, IHr. reflexivity.
+Qed.
+
+(* item lists of the form  prefix* primary (infix prefix* primary)*,  recursively inside parentheses *)
+Inductive Shape : list item -> Prop :=
+| Sh op tl : Operand op -> Tail tl -> Shape (op ++ tl)
+with Operand : list item -> Prop :=
+| Op_pre l : Operand l -> Operand (IPre :: l)
+| Op_leaf t : is_leaf t -> Operand [ILeaf t]
+| Op_paren l : Shape l -> Operand [IParen l]
+with Tail : list item -> Prop :=
+| T_nil : Tail []
+| T_cons o op tl : Operand op -> Tail tl -> Tail (IIn o :: op ++ tl).
+
+Scheme Shape_mind := Minimality for Shape Sort Prop
+  with Operand_mind := Minimality for Operand Sort Prop
+  with Tail_mind := Minimality for Tail Sort Prop.
+Combined Scheme SOT_mind from Shape_mind, Operand_mind, Tail_mind.
+
+Lemma tail_app a b : Tail a -> Tail b -> Tail (a ++ b).
+Proof.
+  intros Ha Hb. induction Ha as [|o op tl Hop Htl IH]; cbn [app]; [exact Hb|].
+  rewrite <- app_assoc. constructor; assumption.
+Qed.
+Lemma shape_join a o b : Shape a -> Shape b -> Shape (a ++ IIn o :: b).
+Proof.
+  intros [op1 tl1 O1 T1] [op2 tl2 O2 T2]. rewrite <- app_assoc. constructor; [exact O1|].
+  apply tail_app; [exact T1|]. constructor; assumption.
+Qed.
+Lemma shape_iparen b l : Shape l -> Shape (iparen b l).
+Proof.
+  intros H. destruct b; cbn [iparen]; [|exact H].
+  change [IParen l] with ([IParen l] ++ []). constructor; constructor. exact H.
+Qed.
+Lemma shape_pre l : Shape l -> Shape (IPre :: l).
+Proof. intros [op tl O T]. change (IPre :: op ++ tl) with ((IPre :: op) ++ tl). constructor; [constructor|]; assumption. Qed.
+
+Lemma shape_print_items t : Shape (print_items t).
+Proof.
+  induction t as [p|x|[] c IH|o l IHl r IHr]; cbn [print_items].
+  - change [ILeaf (TPre p)] with ([ILeaf (TPre p)] ++ []). constructor; constructor. exact I.
+  - change [ILeaf (TVar x)] with ([ILeaf (TVar x)] ++ []). constructor; constructor. exact I.
+  - rewrite assoc_un. apply shape_pre, shape_iparen, IH.
+  - apply shape_join; apply shape_iparen; assumption.
+Qed.
+
+(* what follows a term in a program is never an infix operator *)
+Definition nobin (ts : list token) : Prop := match ts with TkBin _ :: _ => False | _ => True end.
+
+Lemma peg_prefixes_other ts : match ts with TkNeg :: _ => False | _ => True end -> peg_prefixes ts = ([], ts).
+Proof. destruct ts as [|[] ts]; cbn; tauto. Qed.
+
+Lemma peg_operand_neg rec ts :
+  peg_operand rec (TkNeg :: ts) =
+  match peg_operand rec ts with Some (op, r) => Some (IPre :: op, r) | None => None end.
+Proof.
+  unfold peg_operand. cbn [peg_prefixes]. destruct (peg_prefixes ts) as [p r].
+  destruct r as [|t r1]; [reflexivity|].
+  destruct t; cbn [app]; try reflexivity;
+    try (destruct (leaf_of_token _); reflexivity).
+  destruct (rec r1) as [[l [|[] r2]]|]; reflexivity.
+Qed.
+
+Lemma len_cons_app2 {A} (x : A) a b : List.length (x :: a ++ b) = S (List.length a + List.length b).
+Proof. simpl. rewrite app_length. reflexivity. Qed.
+Lemma len_cons_app3 {A} (x : A) a b c :
+  List.length ((x :: a ++ b) ++ c) = S (List.length a + List.length b + List.length c).
+Proof. simpl. rewrite !app_length. reflexivity. Qed.
+
+Lemma peg_ok :
+  (forall items, Shape items -> forall rest f, nobin rest -> List.length (flatten items) <= f ->
+     peg_term (S f) (flatten items ++ rest) = Some (items, rest)) /\
+  (forall op, Operand op -> forall rest f, List.length (flatten op) <= f ->
+     peg_operand (peg_term f) (flatten op ++ rest) = Some (op, rest)) /\
+  (forall tl, Tail tl -> forall rest f n, nobin rest -> List.length (flatten tl) <= f ->
+     List.length (flatten tl ++ rest) <= n ->
+     peg_tail (peg_term f) n (flatten tl ++ rest) = (tl, rest)).
+Proof.
+  apply SOT_mind.
+  - (* Sh *)
+    intros op tl _ HO _ HT rest f NB L. rewrite flatten_app in L |- *. rewrite app_length in L.
+    cbn [peg_term]. rewrite <- app_assoc. rewrite HO by lia.
+    rewrite HT by (auto; lia). reflexivity.
+  - (* Op_pre *)
+    intros l _ IH rest f L. cbn [flatten flatten_item app] in *.
+    rewrite peg_operand_neg. rewrite IH by (cbn in L; lia). reflexivity.
+  - (* Op_leaf *)
+    intros t Ht rest f L. cbn [flatten flatten_item app].
+    unfold peg_operand.
+    destruct t as [[| | |]| | |]; cbn in Ht; try contradiction; reflexivity.
+  - (* Op_paren *)
+    intros l _ IH rest f L. cbn [flatten app] in *. rewrite flatten_paren in *. rewrite app_nil_r in *.
+    assert (Ll : List.length (flatten l) + 2 <= f).
+    { simpl List.length in L. rewrite app_length in L. simpl List.length in L. lia. }
+    destruct f as [|f']; [lia|].
+    unfold peg_operand. cbn [peg_prefixes app]. rewrite <- app_assoc. cbn [app].
+    rewrite IH by (cbn; auto; lia). reflexivity.
+  - (* T_nil *)
+    intros rest f n NB _ _. cbn [flatten app].
+    destruct n; [reflexivity|]. destruct rest as [|[] rest]; cbn in NB; try contradiction; reflexivity.
+  - (* T_cons *)
+    intros o op tl _ HO _ HT rest f n NB L Ln.
+    assert (E : flatten (IIn o :: op ++ tl) = TkBin o :: flatten op ++ flatten tl)
+      by (cbn [flatten flatten_item app]; rewrite flatten_app; reflexivity).
+    rewrite E in *. clear E.
+    rewrite len_cons_app2 in L. rewrite len_cons_app3 in Ln.
+    destruct n as [|n']; [lia|].
+    cbn [app peg_tail]. rewrite <- app_assoc. rewrite HO by lia.
+    rewrite HT; [reflexivity|exact NB|lia|rewrite app_length; lia].
+Qed.
+
+Lemma pratt_leaf t : is_leaf t -> pratt [ILeaf t] = POk t.
+Proof. intros _. reflexivity. Qed.
+
+(* ---- C14 for terms *)
+Theorem parse_print_term t rest : nobin rest -> parse_term (print_term t ++ rest) = POk (t, rest).
+Proof.
+  intros NB. unfold parse_term. destruct peg_ok as [HS _].
+  rewrite <- flatten_print_items.
+  rewrite (HS _ (shape_print_items t) rest _ NB) by (rewrite app_length; lia).
+  rewrite pratt_print_items. reflexivity.
+Qed.
+
+(* ================================================================ 5. atoms ... programs *)
+
+Definition print_more_terms (ts : list term) : list token :=
+  flat_map (fun u => TkComma :: print_term u) ts.
+
+Lemma print_terms_cons t ts : print_terms (t :: ts) = print_term t ++ print_more_terms ts.
+Proof.
+  revert t. induction ts as [|u ts IH]; intros t.
+  - cbn. rewrite app_nil_r. reflexivity.
+  - change (print_terms (t :: u :: ts)) with (print_term t ++ TkComma :: print_terms (u :: ts)).
+    rewrite IH. reflexivity.
+Qed.
+
+Definition nocomma (ts : list token) : Prop := match ts with TkComma :: _ => False | _ => True end.
+Definition nolp (ts : list token) : Prop := match ts with TkLP :: _ => False | _ => True end.
+
+Lemma nobin_more ts rest : nobin rest -> nobin (print_more_terms ts ++ rest).
+Proof. destruct ts; cbn; auto. Qed.
+
+Lemma parse_more_terms_ok ts : forall rest n, nocomma rest -> nobin rest ->
+  List.length (print_more_terms ts ++ rest) <= n ->
+  parse_more_terms n (print_more_terms ts ++ rest) = POk (ts, rest).
+Proof.
+  induction ts as [|u ts IH]; intros rest n NC NB L.
+  - cbn [print_more_terms flat_map app]. destruct n; [reflexivity|].
+    destruct rest as [|[] rest]; cbn in NC; try contradiction; reflexivity.
+  - cbn [print_more_terms flat_map app] in *. fold (print_more_terms ts) in *.
+    rewrite <- app_assoc in *. destruct n as [|n']; [cbn in L; lia|].
+    cbn [parse_more_terms]. rewrite parse_print_term by (apply nobin_more; exact NB).
+    rewrite IH; [reflexivity|exact NC|exact NB|].
+    cbn in L. rewrite app_length in L. lia.
+Qed.
+
+Lemma parse_print_atom a rest : nolp rest -> parse_atom (print_atom a ++ rest) = POk (a, rest).
+Proof.
+  destruct a as [p args]. intros NL. unfold print_atom. cbn [apred aterms].
+  destruct args as [|t ts].
+  - cbn [app parse_atom]. destruct rest as [|[] rest]; cbn in NL; try contradiction; reflexivity.
+  - cbn [app parse_atom]. rewrite print_terms_cons. rewrite <- !app_assoc. cbn [app].
+    unfold parse_term_tuple.
+    rewrite parse_print_term by (apply nobin_more; exact I).
+    rewrite parse_more_terms_ok by (cbn; auto). reflexivity.
+Qed.
+
+Lemma parse_print_literal l rest : nolp rest -> parse_literal (print_literal l ++ rest) = POk (l, rest).
+Proof.
+  destruct l as [s a]. intros NL. unfold print_literal, parse_literal. cbn [lsign latom].
+  rewrite <- app_assoc.
+  assert (H : parse_sign (print_sign s ++ print_atom a ++ rest) = (s, print_atom a ++ rest)).
+  { destruct s; reflexivity. }
+  rewrite H. rewrite parse_print_atom by exact NL. reflexivity.
+Qed.
+
+Lemma parse_print_comparison c rest : nobin rest ->
+  parse_comparison (print_comparison c ++ rest) = POk (c, rest).
+Proof.
+  destruct c as [rel l r]. intros NB. unfold print_comparison, parse_comparison. cbn [crel clhs crhs].
+  rewrite <- app_assoc. cbn [app]. rewrite parse_print_term by exact I.
+  cbn [pbind]. rewrite parse_print_term by exact NB. reflexivity.
+Qed.
+
+Lemma parse_term_sym p X : nobin X -> parse_term (TkSym p :: X) = POk (TPre (PSym p), X).
+Proof. intros H. exact (parse_print_term (TPre (PSym p)) X H). Qed.
+
+(* what follows a body formula in printed text: a comma or the final dot *)
+Definition bfollow (ts : list token) : Prop :=
+  match ts with TkComma :: _ | TkDot :: _ => True | _ => False end.
+
+Lemma parse_print_bformula f rest : bfollow rest -> parse_bformula (print_bformula f ++ rest) = POk (f, rest).
+Proof.
+  intros BF.
+  assert (NB : nobin rest) by (destruct rest as [|[] rest]; cbn in *; tauto).
+  assert (NL : nolp rest) by (destruct rest as [|[] rest]; cbn in *; tauto).
+  destruct f as [l|c]; unfold parse_bformula; cbn [print_bformula].
+  - assert (E : parse_comparison (print_literal l ++ rest) = PFail).
+    { destruct l as [s [p args]]. unfold print_literal, print_atom. cbn [lsign latom apred aterms].
+      destruct s; try reflexivity.
+      cbn [print_sign app]. unfold parse_comparison.
+      rewrite parse_term_sym by (destruct args; [exact NB|exact I]).
+      cbn [pbind]. destruct args; [|reflexivity].
+      cbn [app]. destruct rest as [|[] rest]; cbn in BF; try contradiction; reflexivity. }
+    rewrite E. rewrite parse_print_literal by exact NL. reflexivity.
+  - rewrite parse_print_comparison by exact NB. reflexivity.
+Qed.
+
+Definition print_more_bformulas (fs : list bformula) : list token :=
+  flat_map (fun g => TkComma :: print_bformula g) fs.
+
+Lemma print_body_cons f fs : print_body (f :: fs) = print_bformula f ++ print_more_bformulas fs.
+Proof.
+  revert f. induction fs as [|g fs IH]; intros f.
+  - cbn. rewrite app_nil_r. reflexivity.
+  - change (print_body (f :: g :: fs)) with (print_bformula f ++ TkComma :: print_body (g :: fs)).
+    rewrite IH. reflexivity.
+Qed.
+
+Lemma bfollow_more fs rest : bfollow (print_more_bformulas fs ++ TkDot :: rest).
+Proof. destruct fs; exact I. Qed.
+
+Lemma parse_more_bformulas_ok fs : forall rest n,
+  List.length (print_more_bformulas fs ++ TkDot :: rest) <= n ->
+  parse_more_bformulas n (print_more_bformulas fs ++ TkDot :: rest) = POk (fs, TkDot :: rest).
+Proof.
+  induction fs as [|g fs IH]; intros rest n L.
+  - cbn [print_more_bformulas flat_map app]. destruct n; reflexivity.
+  - cbn [print_more_bformulas flat_map app] in *. fold (print_more_bformulas fs) in *.
+    rewrite <- app_assoc in *. destruct n as [|n']; [cbn in L; lia|].
+    cbn [parse_more_bformulas]. rewrite parse_print_bformula by apply bfollow_more.
+    rewrite IH; [reflexivity|]. cbn in L. rewrite app_length in L. lia.
+Qed.
+
+Lemma parse_print_body b rest : parse_body (print_body b ++ TkDot :: rest) = POk (b, TkDot :: rest).
+Proof.
+  destruct b as [|f fs].
+  - reflexivity.
+  - rewrite print_body_cons, <- app_assoc. unfold parse_body.
+    rewrite parse_print_bformula by apply bfollow_more.
+    rewrite parse_more_bformulas_ok by lia. reflexivity.
+Qed.
+
+(* what follows a head in printed text *)
+Definition hfollow (ts : list token) : Prop :=
+  match ts with TkIf :: _ | TkDot :: _ => True | _ => False end.
+
+Lemma parse_print_head h rest : hfollow rest -> parse_head (print_head h ++ rest) = POk (h, rest).
+Proof.
+  intros HF.
+  assert (NL : nolp rest) by (destruct rest as [|[] rest]; cbn in *; tauto).
+  destruct h as [a|a|]; unfold parse_head; cbn [print_head].
+  - rewrite parse_print_atom by exact NL. reflexivity.
+  - cbn [app parse_atom]. rewrite <- app_assoc. cbn [app].
+    rewrite parse_print_atom by exact I. reflexivity.
+  - cbn [app]. destruct rest as [|[] rest]; cbn in HF; try contradiction; reflexivity.
+Qed.
+
+Definition nodot (ts : list token) : Prop := match ts with TkDot :: _ => False | _ => True end.
+Lemma parse_rule_nodot g ts : nodot ts -> parse_rule g ts = parse_rule_core ts.
+Proof. destruct ts as [|[] ts], g; cbn; tauto. Qed.
+
+Lemma print_rule_nodot r rest : nodot (print_rule r ++ rest).
+Proof.
+  destruct r as [[[p args]|[p args]|] b]; unfold print_rule; cbn; auto.
+Qed.
+
+Lemma parse_print_rule r g rest : parse_rule g (print_rule r ++ rest) = POk (r, rest).
+Proof.
+  rewrite parse_rule_nodot by apply print_rule_nodot.
+  destruct r as [h b]. unfold print_rule, parse_rule_core. cbn [rhead rbody].
+  rewrite <- !app_assoc.
+  destruct (is_falsity h || negb (is_nil b)) eqn:E.
+  - cbn [app]. rewrite parse_print_head by exact I. cbn [pbind].
+    rewrite parse_print_body. reflexivity.
+  - apply orb_false_iff in E. destruct E as [_ E]. destruct b; [|discriminate].
+    cbn [app print_body]. rewrite parse_print_head by exact I. reflexivity.
+Qed.
+
+Lemma parse_rules_ok p : forall g n, List.length p < n -> parse_rules n g (print_program p) = POk (p, []).
+Proof.
+  induction p as [|r p IH]; intros g n L.
+  - destruct n; [lia|]. destruct g; reflexivity.
+  - destruct n as [|n']; [lia|]. cbn [print_program flat_map parse_rules].
+    fold (print_program p). rewrite parse_print_rule. rewrite IH by (cbn in L; lia). reflexivity.
+Qed.
+
+Lemma print_rule_length r : 1 <= List.length (print_rule r).
+Proof. unfold print_rule. rewrite !app_length. cbn. lia. Qed.
+Lemma print_program_length p : List.length p <= List.length (print_program p).
+Proof.
+  induction p as [|r p IH]; [cbn; lia|]. cbn [print_program flat_map]. fold (print_program p).
+  rewrite app_length. pose proof (print_rule_length r). cbn [List.length]. lia.
+Qed.
+
+(* ---- C14, token level: for EVERY program (no side condition) and whatever the `!"."` guard saw *)
+Theorem parse_print_program_from g p : parse_program_from g (print_program p) = POk p.
+Proof.
+  unfold parse_program_from. rewrite parse_rules_ok; [reflexivity|].
+  pose proof (print_program_length p). lia.
+Qed.
+
+Theorem parse_print_program p : parse_program (print_program p) = POk p.
+Proof. apply parse_print_program_from. Qed.
+
+Theorem print_idem p q : parse_program (print_program p) = POk q -> print_program q = print_program p.
+Proof. rewrite parse_print_program. intros [= <-]. reflexivity. Qed.
